@@ -50,6 +50,12 @@ enum D {
 struct Case {
     defs: Vec<D>,
     sizeof: bool,
+    /// sizeof only: the symbol has a third parameter passed on the stack at [RSP-8] (8 bytes)
+    stack_param: bool,
+    /// the block starts with `RSP := const` (an absolute stack pointer outside the (empty) memory image): every later stack
+    /// access is an access to an absolute address that lies in no segment: stores are dropped, loads (and the evaluation of
+    /// a stack parameter) fail, a failed load sets its register to unknown
+    rsp_abs: Option<u64>,
 }
 
 fn src_json(s: &Src) -> Value {
@@ -82,7 +88,7 @@ impl Case {
                 D::Load4(o) => json!({"k": "load4", "off": o}),
             })
             .collect();
-        json!({"sizeof": self.sizeof, "defs": defs, "registers": REGS8, "reg4": REG4,
+        json!({"sizeof": self.sizeof, "stack_param": self.stack_param, "rsp_abs": self.rsp_abs.map(|x| x.to_string()), "defs": defs, "registers": REGS8, "reg4": REG4,
                "legend": "bin op: 0 add 1 sub 2 and 3 or 4 xor 5 mult; off is relative to RSP; parameters: umask(RDI), malloc-like(RDI, RSI)"})
     }
     fn from_json(v: &Value) -> Case {
@@ -105,7 +111,8 @@ impl Case {
                 }
             })
             .collect();
-        Case { defs, sizeof: v["sizeof"].as_bool().unwrap_or(false) }
+        Case { defs, sizeof: v["sizeof"].as_bool().unwrap_or(false), stack_param: v["stack_param"].as_bool().unwrap_or(false),
+               rsp_abs: v["rsp_abs"].as_str().and_then(|x| x.parse().ok()) }
     }
 }
 
@@ -131,6 +138,8 @@ struct Machine {
     mem: BTreeMap<i64, Byte>,
     /// per store: (offset, size, exact source, still intact)
     stores: Vec<(i64, u32, bool)>,
+    /// RSP is an absolute address outside every segment: no stack cell is ever known
+    abs: bool,
 }
 
 impl Machine {
@@ -141,6 +150,9 @@ impl Machine {
         }
     }
     fn store(&mut self, off: i64, size: u32, val: Option<(u64, bool)>) {
+        if self.abs {
+            return;
+        }
         let id = self.stores.len();
         self.stores.push((off, size, val.map(|x| x.1).unwrap_or(false)));
         for i in 0..size as i64 {
@@ -155,6 +167,9 @@ impl Machine {
         }
     }
     fn load(&self, off: i64, size: u32) -> Option<(u64, bool)> {
+        if self.abs {
+            return None;
+        }
         let mut v: u64 = 0;
         let mut ids = BTreeSet::new();
         for i in 0..size as i64 {
@@ -169,8 +184,8 @@ impl Machine {
         };
         Some((v, exact))
     }
-    fn run(defs: &[D]) -> Machine {
-        let mut m = Machine { regs: [None; 4], ecx: None, mem: BTreeMap::new(), stores: Vec::new() };
+    fn run(defs: &[D], abs: bool) -> Machine {
+        let mut m = Machine { regs: [None; 4], ecx: None, mem: BTreeMap::new(), stores: Vec::new(), abs };
         for d in defs {
             match d {
                 D::Set(r, s) => m.regs[*r] = m.src(s),
@@ -269,8 +284,16 @@ fn project(case: &Case) -> Project {
             Term { tid: Tid::new(format!("def_{i}")), term }
         })
         .collect();
+    let mut defs = defs;
+    if let Some(a) = case.rsp_abs {
+        defs.insert(0, Term { tid: Tid::new("def_rsp"), term: Def::Assign { var: var("RSP", 8), value: Expression::Const(Bitvector::from_u64(a)) } });
+    }
     let (name, parameters) = if case.sizeof {
-        ("malloc", vec![Arg::from_var(r8(0), None), Arg::from_var(r8(1), None)])
+        let mut p = vec![Arg::from_var(r8(0), None), Arg::from_var(r8(1), None)];
+        if case.stack_param {
+            p.push(Arg::Stack { address: stack(-8), size: ByteSize::new(8), data_type: None });
+        }
+        ("malloc", p)
     } else {
         ("umask", vec![Arg::from_var(r8(0), None)])
     };
@@ -369,15 +392,18 @@ pub const K1: &str = "K1-signed-overflow-in-constant-arithmetic";
 /// from constants alone), but the interval analysis answers Top for such an operation BY DESIGN (Interval::add / sub /
 /// signed_mul), so the warning is not produced.  Recorded as an open finding, not as a disagreement.
 fn expected(case: &Case) -> Option<(usize, String, Option<&'static str>)> {
-    let m = Machine::run(&case.defs);
+    let m = Machine::run(&case.defs, case.rsp_abs.is_some());
     if case.sizeof {
-        let p = [m.regs[0], m.regs[1]];
+        let mut p = vec![m.regs[0], m.regs[1]];
+        if case.stack_param {
+            p.push(m.load(-8, 8).map(|(v, e)| V { v, exact: e, ovf: false }));
+        }
         if p.iter().any(|x| matches!(x, Some(v) if v.exact && !v.ovf && v.v == 8)) {
             Some((1, "a parameter is exactly the constant 8 = pointer size".to_string(), None))
         } else if p.iter().any(|x| matches!(x, Some(v) if v.exact && v.v == 8)) {
             Some((1, "a parameter is the constant 8 = pointer size (computed with a signed overflow on the way)".to_string(), Some(K1)))
         } else if p.iter().all(|x| matches!(x, Some(v) if v.v != 8)) {
-            Some((0, format!("both parameters are constants different from 8 ({}, {})", p[0].unwrap().v, p[1].unwrap().v), None))
+            Some((0, format!("all parameters are constants different from 8 ({:?})", p.iter().map(|x| x.unwrap().v).collect::<Vec<_>>()), None))
         } else {
             None
         }
@@ -456,7 +482,9 @@ fn gen_case(rng: &mut Rng, sizeof: bool) -> Case {
         };
         defs.push(d);
     }
-    Case { defs, sizeof }
+    let stack_param = sizeof && rng.next() % 3 == 0;
+    let rsp_abs = if rng.next() % 6 == 0 { Some(0x2000_8000 + 16 * (rng.next() % 4)) } else { None };
+    Case { defs, sizeof, stack_param, rsp_abs }
 }
 
 fn enumerate(twin: &str, seed: u64, budget: usize, evaluations: &mut usize, decided: &mut usize, known: &mut Vec<Value>) -> Option<Value> {
@@ -473,8 +501,14 @@ fn enumerate(twin: &str, seed: u64, budget: usize, evaluations: &mut usize, deci
         vec![D::Store8(-24, Src::Const(if sizeof { 8 } else { 0o1000 })), D::Load8(0, -24), D::Set(1, Src::Const(0))],
     ]
     .into_iter()
-    .map(|defs| Case { defs, sizeof })
+    .map(|defs| Case { defs, sizeof, stack_param: false, rsp_abs: None })
     .collect();
+    if sizeof {
+        // a stack parameter that cannot be evaluated (absolute stack pointer outside the image) next to a pointer-sized one
+        cases.push(Case { defs: vec![D::Set(0, Src::Const(8))], sizeof, stack_param: true, rsp_abs: Some(0x2000_8000) });
+        cases.push(Case { defs: vec![D::Set(1, Src::Const(4)), D::Bin(1, 0, Src::Reg(1), Src::Const(4)), D::Set(0, Src::Const(0))], sizeof, stack_param: true, rsp_abs: Some(0x2000_8000) });
+        cases.push(Case { defs: vec![D::Store8(-8, Src::Const(8)), D::Set(0, Src::Const(1)), D::Set(1, Src::Const(2))], sizeof, stack_param: true, rsp_abs: None });
+    }
     for _ in 0..budget {
         cases.push(gen_case(&mut rng, sizeof));
     }
